@@ -333,6 +333,16 @@ func runC02(c *ctx) {
 				add(append(append([]byte{}, fr[:i]...), '\n'), "no-terminator", true)
 			}
 		}
+		// size tokens other integer parsers accept, each in front of the data length its mis-parse
+		// implies; in search mode (an obligation no longer checks: -scale > 1) the search budget
+		// goes here: many more data lengths
+		ns := []int{1, 2, 5, 7, 8, 9, 10, 11, 15, 16, 17, 64, 93, 100, 255, 256, 1000}
+		if c.thorough() || c.scale > 1 {
+			for i := 0; i < 60*c.scale; i++ {
+				ns = append(ns, r.Range(1, 5000))
+			}
+		}
+		c02sizeStream(r, ns, add)
 		tiny := []string{"", "#", "##", "#1", "#1\n", "#-1\nabc\n##", "#5\nab", "#3\nabc", "\n#", "#\n", "#+3\nabc\n##", "x", "#3\nabc\n#", "# 3\nabc\n##", "#3\nabc##", "#03\nabc\n##", "#3\nabc\n\n\n##", "#3\nabc\n##junk"}
 		for _, s := range tiny {
 			add([]byte(s), "tiny", false)
